@@ -206,6 +206,37 @@ def infinite_transforms(rec, quick):
         eng.run()
         ref_sz = np.array(psi0.expectation_value('Sz'))
         ref_c = np.array([psi0.correlation_function('Sp', 'Sm', [i], [i + 1, i + 2])[0] for i in range(L)])
+        # ---- compression of an infinite MPS: the reported error bounds the infidelity per unit cell and is at least the weight
+        # discarded on any single bond (evolved state with site-dependent field, and a random state with non-uniform bond dimensions)
+        from tenpy.networks.site import SpinHalfSite
+        rng_c = np.random.default_rng(100 + L)
+        chis = [int(x) for x in rng_c.integers(3, 8, size=L)]
+        s_nc = SpinHalfSite(conserve=None)
+        Bs_r = [rng_c.normal(size=(2, chis[i], chis[(i + 1) % L])) + 1.j * rng_c.normal(size=(2, chis[i], chis[(i + 1) % L])) for i in range(L)]
+        psi_r = MPS.from_Bflat([s_nc] * L, Bs_r, bc='infinite', dtype=complex, form=None)
+        psi_r.canonical_form()
+        for tag, src in (('evolved', psi0), ('random', psi_r)):
+            for chi_max in (2, 3):
+                if max(src.chi) <= chi_max:
+                    continue
+                for method in ('compress_svd', 'compress'):
+                    inp_c = {'L': L, 'state': tag, 'chi': list(src.chi), 'chi_max': chi_max, 'method': method}
+                    rec.begin(f'C09 infinite compress {inp_c}')
+                    phi = src.copy()
+                    tp = {'chi_max': chi_max, 'svd_min': 1e-14}
+                    ok, err = rec.guarded(f'{method}(infinite):exception',
+                                          lambda: phi.compress_svd(tp) if method == 'compress_svd' else phi.compress({'compression_method': 'SVD', 'trunc_params': tp}), inp_c)
+                    rec.case(('compress-infinite', L, tag, chi_max, method))
+                    if not ok:
+                        continue
+                    phi.canonical_form()
+                    ov = abs(src.overlap(phi, understood_infinite=True))
+                    infid = 1. - ov ** 2
+                    disc = max(float(np.sum(np.sort(src.get_SL(b_))[::-1][chi_max:] ** 2)) for b_ in range(L))
+                    rec.check(infid <= 2 * err.eps + 1e-9, f'{method}(infinite):error-bound',
+                              f'infidelity per unit cell {infid} > 2 * reported eps {err.eps}', inp_c)
+                    rec.check(err.eps >= 0.5 * disc - 1e-12, f'{method}(infinite):reported-error-below-single-bond-weight',
+                              f'reported eps {err.eps}, weight discarded on one bond alone {disc}', inp_c)
         for form in ('A', 'B', 'C'):
             inp = {'L': L, 'form': form}
             # roll
